@@ -25,6 +25,8 @@ for be in BACKS:
         'void serialize(fsm_t* self, archive_t* ar, unsigned int version)', 'copy_serialize.spec.h',
         xform=back_xform([], refparams=(), members=['m_states', 'm_history', 'm_event_processing', 'm_is_included', 'm_substate_list'], rewrites=[
             dict(name='base-object', pat='( serialize_state < Archive > ( ar ) ) ( serialization :: base_object < Derived > ( self ) ) ;', rep='AR_AMP ( ar , base ) ;', min=0, max=1),
+            dict(name='ARCHIVE-direction', pat='Archive :: is_loading :: value', rep='ar -> is_loading', min=0),
+            dict(name='ARCHIVE-direction2', pat='Archive :: is_saving :: value', rep='( ! ar -> is_loading )', min=0),
             dict(name='ARCHIVE-amp', pat='ar & self -> $1 ;', rep='AR_AMP ( ar , $1 ) ;', min=0),
             dict(name='fusion-for_each', pat='for_each ( self -> m_substate_list , serialize_state < Archive > ( ar ) ) ;', rep='AR_AMP ( ar , substates ) ;', min=0, max=1)]),
         also_replace=['ar_amp'], replay=['copy']))
